@@ -7,7 +7,8 @@ import LinOp.C12.Classes
   q <mcs> <frd> <flp> <fs> <kind> [args]         -> <sorted key set> ; <primitives run | *> ; <tri | ->
   d <mcs> <frd> <flp> <fs> <kind> <profile> <n>  -> P <parent key set> ; N <new object's key set> ; *
   back                                           -> ok            (return to the parent object)
-  wnew <kind> <n> <subprofile>:<n_i>,...         -> ok            (a fresh wrapper of class <kind> over fresh sub-operators)
+  wnew <kind> <n> <subprofile>:<n_i>,...         -> ok            (a fresh wrapper of class <kind> over fresh sub-operators;
+                                                                  kinds: batchRepeat block blockInterleaved constMul kron addedDiag addedDiagConst)
   wq <mcs> <frd> <flp> <fs> <self|sub<i>> <kind> [args]
                                                  -> W <wrapper key set> | S <key set of sub 0> | S <key set of sub 1> …
 -/
@@ -80,6 +81,9 @@ def kindOf (s : String) : Option WKind :=
   else if s = "block" then some .block
   else if s = "constMul" then some .constMul
   else if s = "blockInterleaved" then some .blockInterleaved
+  else if s = "kron" then some .kron
+  else if s = "addedDiag" then some .addedDiag
+  else if s = "addedDiagConst" then some .addedDiagConst
   else none
 
 def parseSubs (s : String) : List SubObj :=
@@ -113,7 +117,7 @@ def stepLine (s : DState) (line : String) : DState × String :=
     match parseSettings a b c d, s.wobj with
     | some σ, some (k, n, w) =>
       let (q, _) := parseQuery rest
-      let wq : WQuery := if tgt = "self" then .self q else .sub ((tgt.drop 3).toNat?.getD 0 + 2) q
+      let wq : WQuery := if tgt = "self" then (if rest = ["logdet"] then .logdet else .self q) else .sub ((tgt.drop 3).toNat?.getD 0 + 2) q
       let r := wStep k σ n 1 wq w
       ({ s with wobj := some (k, n, r.1) }, showW r.1)
     | _, _ => bad
